@@ -57,7 +57,7 @@ def run(chk, repo):
     chk.rule("C15-L6", "every named group has a translator", 3)
     chk.rule("C15-L8", "decoders evaluated on the language composed from the code tables (every product id, scan suffix, sampled dates and file names) give each component its table meaning; near misses and impossible dates raise ValueError", 500)
     chk.attempt(language_evaluation, chk, repo)
-    chk.attempt(grammar_rules, chk, repo, covered_by="language_evaluation")
+    chk.attempt(grammar_rules, chk, repo, covered_by="language_evaluation", rules=("C15-L1", "C15-L2", "C15-L3", "C15-L4", "C15-L5", "C15-L6"))
     from .c13 import groupname_injective
     chk.rule("C15-L7", "the image group name is unique per (polarisation, scan): exhaustive over the 55 combinations the grammar admits", 2)
     chk.attempt(groupname_injective, chk, repo, "C15-L7")
